@@ -202,7 +202,92 @@ func c17Field(res *any) reflect.Value {
 	return v.FieldByName("V")
 }
 
+// c17Lists: a conversion that fails at the end of a production which, on the
+// way, tried an optional part further ahead and gave it up. The error the
+// caller gets is the conversion error at the captured token, not whatever the
+// abandoned look ahead had met.
+//
+//	Item = @Tok ( Minus Minus @Tok )? ;  List = @@ ( Minus @@ )*
+func c17Lists(c *mon.Child) {
+	for ki, k := range numKinds {
+		item := reflect.StructOf([]reflect.StructField{
+			{Name: "V", Type: k.typ, Tag: `@Tok`},
+			{Name: "Tag", Type: reflect.TypeOf(""), Tag: `( Minus Minus @Tok )?`},
+		})
+		list := reflect.StructOf([]reflect.StructField{{Name: "Items", Type: reflect.SliceOf(reflect.PtrTo(item)), Tag: `@@ ( Minus @@ )*`}})
+		p, err := c17Build(list, participle.Lexer(c17LexLower))
+		if err != nil {
+			c.Violation("", "build.list."+k.name, "list template does not build: "+err.Error(), nil)
+			continue
+		}
+		texts := c17Texts(k, c.RNG("listtexts", k.name), c.N(60, 2000))
+		for ti, text := range texts {
+			if strings.ContainsAny(text, "- \t\n\r") || text == "" {
+				continue
+			}
+			key := fmt.Sprintf("l%d.t%d", ki, ti)
+			if !c.Want(key) {
+				continue
+			}
+			// second item: a valid number, or a word (then the second item's conversion is the one that fails)
+			input := text + " - 5"
+			c.Begin(key, fmt.Sprintf("%s list <- %q", k.name, input))
+			c.Eval(1)
+			e := numOracle(k, text)
+			var res *any
+			var perr error
+			pn, pv, st := mon.Guard(func() { res, perr = p.ParseString("l.txt", input) })
+			desc := fmt.Sprintf("%s field, template list-item-with-abandoned-lookahead (Item = @Tok ( Minus Minus @Tok )? ; List = @@ ( Minus @@ )*), input %q", k.name, input)
+			report := func(what string) {
+				c.Violation("", key, what+" | "+desc, map[string]interface{}{"kind": k.name, "template": "list", "input": input, "difference": what})
+			}
+			switch {
+			case pn:
+				report("parse panicked: " + pv + " at " + st)
+			case e.err == nil:
+				c.Feature("list_conversions_accepted")
+				if perr != nil {
+					report(fmt.Sprintf("strconv accepts %q but the parse failed: %v", text, perr))
+					break
+				}
+				v := reflect.ValueOf(*res)
+				for v.Kind() == reflect.Ptr || v.Kind() == reflect.Interface {
+					v = v.Elem()
+				}
+				items := v.FieldByName("Items")
+				if items.Len() != 2 {
+					report(fmt.Sprintf("%d items, the input has 2", items.Len()))
+				} else if ok, got := numEqual(k, items.Index(0).Elem().FieldByName("V"), e); !ok {
+					report(fmt.Sprintf("stored %s, strconv says %v", got, fmtExp(k, e)))
+				}
+			default:
+				c.Feature("list_conversions_rejected_after_an_abandoned_lookahead")
+				if perr == nil {
+					report(fmt.Sprintf("strconv rejects %q (%v) but the parse succeeded", text, e.err))
+					break
+				}
+				pe, ok := perr.(participle.Error)
+				if !ok {
+					report(fmt.Sprintf("error %T does not satisfy participle.Error: %v", perr, perr))
+					break
+				}
+				if !strings.Contains(pe.Message(), e.err.Error()) {
+					report(fmt.Sprintf("error message %q does not name the conversion error %q", pe.Message(), e.err.Error()))
+				}
+				if pe.Position().Offset != 0 {
+					report(fmt.Sprintf("conversion error located at offset %d (%v), the captured token is at offset 0", pe.Position().Offset, pe.Position()))
+				}
+				if len(text) >= 3 {
+					c.Nontrivial(k.name + "\x00list\x00" + input)
+				}
+			}
+			c.End(key)
+		}
+	}
+}
+
 func c17Child(c *mon.Child) {
+	c17Lists(c)
 	type variant struct {
 		name  string
 		ft    func(k numKind) reflect.Type
